@@ -25,7 +25,7 @@
     persistent state, any allocator answers) + NewPeriodicSyncer. *)
 From BBS Require Import Common.Sx Persist.PBL Persist.PBLProofs Persist.Syncer Persist.SyncerProofs
   Persist.Shutdown Persist.ShutdownProofs Persist.ShutdownOrder Run.R03.
-From BBS Require Import Run.R03MonGhost Run.R03MonFields Run.R03MonReplay Run.R03Mon Run.R03MonAck Run.R03MonObs Run.R03MonInherit Run.R03MonStoreFields Run.R03MonList Run.R03MonCopies Run.R03MonEx.
+From BBS Require Import Run.R03MonGhost Run.R03MonFields Run.R03MonReplay Run.R03Mon Run.R03MonAck Run.R03MonObs Run.R03MonInherit Run.R03MonStoreFields Run.R03MonList Run.R03MonCopies Run.R03MonReadback Run.R03MonEx.
 Local Open Scope nat_scope.
 
 (** The ghost never influences the run. *)
@@ -242,9 +242,12 @@ Proof. vm_compute. repeat split; reflexivity. Qed.
     monitor is silent on the model" is therefore stated over EVERY observation the model accepts,
     i.e. for every resolution.  Proofs: Run/R03Mon*.v.
 
-    Full statement (NOT proved; clauses 1, 4, 5 need the store above the block list — key-location
-    map, old/current/new map, data device — which Persist/*.v does not model):
+    Full statement (NOT proved: clause 5 "wrong bytes" needs the data device and the index above
+    the block list, which Persist/*.v does not model):
       forall inp obs, is_marker obs = false -> replay03 inp obs = [] -> store_ok inp obs -> mon03 inp obs = [].
+    Proved below: every clause except 5 ([mon03_silent_on_accepted_partial2]), the part of the store
+    that the model does not contain entering as two decidable checks on the observation ([u_obs],
+    [r_obs]) which hold on the generated observations.
 
     Proved: clauses 2, 3, 7, 8 never fire (the hypothesis [u_obs], a decidable check on the
     observation, is the store-level link "the result of an upload op is the one the store derives
@@ -343,6 +346,32 @@ Theorem mon03_owed_copies_resolve : forall c cfg bs st0 now e0 es x0 x1 cfgsx ob
 Proof. exact R03MonCopies.mon03_owed_copies_resolve. Qed.
 Print Assumptions mon03_owed_copies_resolve.
 
+(** ... which closes clauses 1 and 4 up to ONE statement about the store above the block list, made
+    explicit as the decidable check [r_obs] (Run/R03MonReadback.v; it contains the link checks of
+    [mon03_owed_copies_resolve], "every restart re-attaches all blocks of the state file", fewer than
+    2^16 listed blocks / 2^32 listed epochs, and per read-back entry (32 k ...), evaluated on the replay's
+    MODEL state: if the BlockReference of an owed copy of key k resolves on the model's current list with
+    its seed, the entry reports the key readable — "the store finds what the block list resolves", the
+    business of the key-location map and the old/current/new map, C06 / C05).  For this the copies'
+    acknowledgements are carried over restarts together with their block LOCATIONS ([Sn]: a state
+    snapshot lists, in order, the locations of the blocks of its moment; [carry_ack]), so inherited
+    copies are live acknowledgements too, and every live acknowledgement resolves at every point.
+    [r_obs] is true on the 800 generated observations it was evaluated on; it cannot be dropped
+    ([mon03_r_obs_is_needed]). *)
+Theorem mon03_clauses14_silent : forall inp obs, replay03 inp obs = [] -> r_obs inp obs = true ->
+  forall z, In z (mon03 inp obs) -> z <> 1%Z /\ z <> 4%Z.
+Proof. exact R03MonReadback.mon03_clauses14_silent. Qed.
+Print Assumptions mon03_clauses14_silent.
+
+(** all clauses but "wrong bytes": on every observation the model accepts and whose op results /
+    read-backs are consistent with the recorded block-list history in the sense of the two decidable
+    checks, the monitor can only report clause 5 *)
+Theorem mon03_silent_on_accepted_partial2 : forall inp obs,
+  is_marker obs = false -> replay03 inp obs = [] -> u_obs inp obs = true -> r_obs inp obs = true ->
+  forall z, In z (mon03 inp obs) -> z = 5%Z.
+Proof. exact R03MonReadback.mon03_silent_on_accepted_partial2. Qed.
+Print Assumptions mon03_silent_on_accepted_partial2.
+
 (** one incarnation, spelled out *)
 Theorem mon03_incarnation_sound : forall c cfg bs st0 now e0 es x0 x1 cfgsx objs ops m0,
   replay_restore c cfg bs st0 now e0 = Some x0 ->
@@ -379,7 +408,7 @@ Definition first_inc (inp obs : sx) : mst :=
 Example mon03_hyps_nonvacuous_graceful :
   is_marker exg_obs = false /\ replay03 exg_inp exg_obs = [] /\ u_obs exg_inp exg_obs = true /\
   mon03 exg_inp exg_obs = [] /\ length (sx_list exg_obs) = 2 /\
-  forallb all_restored_h (sx_list exg_obs) = true /\ l_obs exg_inp exg_obs = true /\
+  forallb all_restored_h (sx_list exg_obs) = true /\ l_obs exg_inp exg_obs = true /\ r_obs exg_inp exg_obs = true /\
   m_prev (first_inc exg_inp exg_obs) = 1%Z /\ length (m_copies (first_inc exg_inp exg_obs)) = 1 /\
   existsb (fun e => Z.eqb (tag e) 4 && Z.eqb (sx_Z (sx_nth e 2)) 1) (sx_list (sx_nth exg_obs 0)) = true.
 Proof. vm_compute. repeat split; reflexivity. Qed.
@@ -387,7 +416,7 @@ Proof. vm_compute. repeat split; reflexivity. Qed.
 Example mon03_hyps_nonvacuous_crash :
   is_marker exc_obs = false /\ replay03 exc_inp exc_obs = [] /\ u_obs exc_inp exc_obs = true /\
   mon03 exc_inp exc_obs = [] /\ length (sx_list exc_obs) = 3 /\
-  forallb all_restored_h (sx_list exc_obs) = true /\ l_obs exc_inp exc_obs = true /\
+  forallb all_restored_h (sx_list exc_obs) = true /\ l_obs exc_inp exc_obs = true /\ r_obs exc_inp exc_obs = true /\
   m_prev (first_inc exc_inp exc_obs) = 2%Z /\ length (m_copies (first_inc exc_inp exc_obs)) = 2.
 Proof. vm_compute. repeat split; reflexivity. Qed.
 
@@ -398,4 +427,12 @@ Proof. vm_compute. repeat split; reflexivity. Qed.
 Example mon03_u_obs_is_needed :
   is_marker exb_obs = false /\ replay03 exg_inp exb_obs = [] /\ u_obs exg_inp exb_obs = false /\
   mon03 exg_inp exb_obs = [2%Z].
+Proof. vm_compute. repeat split; reflexivity. Qed.
+
+(** likewise [r_obs]: [exr_obs] is [exg_obs] with the read-back of the owed key 0 altered by hand to
+    NOT_FOUND (not an observation of the code): the model still accepts it, [r_obs] rejects it, the
+    monitor reports clause 1 *)
+Example mon03_r_obs_is_needed :
+  replay03 exg_inp exr_obs = [] /\ u_obs exg_inp exr_obs = true /\ r_obs exg_inp exr_obs = false /\
+  mon03 exg_inp exr_obs = [1%Z].
 Proof. vm_compute. repeat split; reflexivity. Qed.
